@@ -42,7 +42,8 @@ func init() { props["C12"] = runC12 }
 func runC12(c *Ctx) {
 	c.R.Rule = "S: (max-size ∈ {0,8..64,4096,…}, 1–12 frames mostly well-formed + one malformed element, PRNG segmentation incl. 1-byte chunks and header splits) -> frames/outcome of the real serve() vs Stream.readAll on the same chunks; non-trivial = ≥2 frames or a refused stream; " +
 		"E: scenarios (pool 1–4 × relay mode × max-size × compression × cache) of 20–60 messages over 20 API methods from concurrent senders -> every Route* record vs the send log, every wire frame vs Frame.encode; non-trivial = message larger than one buffer, compressed, important, refused or cached-name; distinct by (kind,size class,options); " +
-		"H: valid frames of every kind mutated at the boundaries of the extracted guards -> class and fields of handleRecvQueue vs Frame.parse"
+		"H: valid frames of every kind mutated at the boundaries of the extracted guards -> class and fields of handleRecvQueue vs Frame.parse; " +
+		"N: two real nodes over loopback: Send/SendImportant by pid, name, alias and to non-existent addressees, sizes 0..70 kB, compression on/off -> return value vs deliveries recorded by the receiving actor"
 	c12Stream(c)
 	for _, v := range c.R.Violations {
 		if v.Signature == "C12-reader-crash" {
@@ -54,6 +55,7 @@ func runC12(c *Ctx) {
 	}
 	c12EndToEnd(c)
 	c12Handler(c)
+	c12Nodes(c)
 }
 
 // ---------------------------------------------------------------------------------------------
